@@ -50,7 +50,7 @@ def locked_incr(v, seq, n, conn):
             if (s % 7) == 3:
                 time.sleep(0.0005)      # widen the window an unlocked writer would need
             v.value = r + 1
-            log.append((s, r, r + 1))
+            log.append((s, r, r + 1, time.monotonic()))     # the instant lies inside this holder's section
     conn.send(log)
     conn.close()
 
